@@ -93,6 +93,8 @@ MUTANTS = [
     ("m_c02_failure_clears_default", "C02", C,
      "        except pulp.PulpSolverError:\n            logging.warning(",
      "        except pulp.PulpSolverError:\n            pulp.LpSolverDefault = None  # 'do not try a broken solver again'\n            logging.warning("),
+    ("m_c13_from_string_upper", "C13", C, "            entry = Entry(int(fields[0]), fields[1], int(fields[2]))",
+     "            entry = Entry(int(fields[0]), fields[1].upper(), int(fields[2]))"),
     ("m_c02_twodigit", "C02", C, '                i, order = map(int, name.split("_")[1:])',
      "                i, order = int(name[2]), int(name[-1])"),
     ("m_c02_size_shortcut", "C02", C,
